@@ -213,6 +213,7 @@ def main(argv):
             rc = mod.selftest(ctx)
             shutil.rmtree(ctx.work, ignore_errors=True)
             return rc
+        warmup()
         mod.run(ctx)
         if ctx.cov["traces_validated_against_impl"] == 0 and ctx.cov["evaluations"] == 0:
             raise MachineryError("vacuous run: nothing was bound to the implementation")
@@ -270,3 +271,20 @@ def call_limited(fn, limit=20, factor=15):
     except ImplTimeout:
         with time_limit(limit * factor):
             return fn()
+
+
+def warmup():
+    """Import the library and create the global Environment (its Factory imports every engine module) in the
+    parent process, outside any time limit, before worker processes are forked: a time-out firing in the
+    middle of these lazy imports would leave half-imported modules behind in that worker."""
+    try:
+        import unified_planning as up
+        from unified_planning import shortcuts  # noqa: F401
+
+        env = up.environment.get_environment()
+        env.factory.engines  # noqa: B018
+        import unified_planning.engines.compilers  # noqa: F401
+        import unified_planning.engines.plan_validator  # noqa: F401
+        import unified_planning.engines.sequential_simulator  # noqa: F401
+    except Exception:
+        pass
